@@ -60,6 +60,9 @@ type kvElection struct {
 	onPromote func(ctx context.Context, token string)
 	onDemote  func()
 
+	// termCancel ends the context handed to OnPromote when the term ends (guarded by mu)
+	termCancel context.CancelFunc
+
 	// Connection monitoring
 	connectionMonitor ConnectionMonitor
 	disconnectHandler *disconnectHandler
@@ -423,6 +426,12 @@ func (e *kvElection) becomeLeader(token string, rev uint64) {
 		e.validationLoop(e.ctx)
 	}()
 
+	termCtx, termCancel := context.WithCancel(e.ctx)
+	if e.termCancel != nil {
+		e.termCancel()
+	}
+	e.termCancel = termCancel
+
 	if e.onPromote != nil {
 		log.Info("leader_promoted",
 			append(e.logWithContext(e.ctx),
@@ -442,7 +451,7 @@ func (e *kvElection) becomeLeader(token string, rev uint64) {
 					)
 				}
 			}()
-			promoteCtx, cancel := context.WithCancel(e.ctx)
+			promoteCtx, cancel := context.WithCancel(termCtx)
 			defer cancel()
 			e.onPromote(promoteCtx, token)
 		}()
@@ -530,6 +539,12 @@ func (e *kvElection) becomeFollower() bool {
 	if wasLeader {
 		e.recordLeaderDuration()
 		e.leaderStartTime.Store(time.Time{})
+	}
+
+	if e.termCancel != nil {
+		// work bound to the promotion context must not outlive the term
+		e.termCancel()
+		e.termCancel = nil
 	}
 
 	e.recordTransition(fromState, StateFollower)
